@@ -19,6 +19,8 @@ def gen_decl(rng, kinds=("expect", "expect", "expect", "always", "never"), times
         for p in range(ARITY[f]):
             if rng.random() < 0.35:
                 toks.append("w%d:%s:%d" % (p, rng.choice(["eq", "eq", "ne", "lt", "gt"]), rng.choice([0, 1, 2, 3])))
+                if rng.random() < 0.3:      # a second clause for the same parameter (a range, say): every one of them is checked
+                    toks.append("w%d:%s:%d" % (p, rng.choice(["ne", "lt", "gt"]), rng.choice([0, 1, 2, 3])))
         if ARITY[f] < 3 and rng.random() < 0.07:      # a clause naming a parameter the mock does not pass
             toks.append("w%d:%s:%d" % (rng.randrange(ARITY[f], 3), rng.choice(["eq", "ne"]), rng.choice([0, 1])))
     if k != "never" and f < fns - 1 and rng.random() < side:
